@@ -501,7 +501,12 @@ def backtrack (st : Store) : Nat → AnyOp → Rel → Engine → Except Err (Re
         | some f =>
           let (up, done) ← backtrack st fuel f target pref
           match up with
-          | .same => return (.same, done && cdone)
+          | .same =>
+            -- `upstream is target`: keep the tree unless the commutation replaced this operation
+            if second == cur then return (.same, done && cdone)
+            else
+              let res ← second.finishApply target
+              return (.new (res.get target), done && cdone)
           | .new u =>
             let res ← second.finishApply u
             return (.new (res.get u), done && cdone)
